@@ -6,9 +6,9 @@ Tie, on every run (extracted model coq/bin/smart vs the real SmartCloudSync / Sm
   tables      the gate model step by step on real entry tables (filter, pre_sync, request, un-request, listing)
   Stream A    seeded sequences in the claimed-clean domain (drained after every action / interleaved with engine steps):
               monitor on every observation, smart_spec (trees + merged listing of every folder) at every quiescent point
-  Stream B    deterministic: corpus/C20, the exhaustive product of boundary scenarios, a fixed-seed sample of the
-              generator without the two domain restrictions (failures there are listed known findings S-1, S-2)
-`python -m harness.checks.c20 build-known` prints the Stream B failing case ids grouped by finding (build-time tool).
+  Stream B    deterministic: corpus/C20, the exhaustive product of boundary scenarios, a fixed-seed sample of the generator
+              (version c20-wild-2: until the repairs fc0a567 / 2277c0d in /repo 206 of its cases failed and were the listed
+              findings S-1, S-2; they are ordinary cases now and must pass)
 """
 import glob
 import json
@@ -235,9 +235,11 @@ def run_corpus(ctx, known_ids, streams):
             ok, what, detail, s = T.run_table(j["case"], model)
             if not ok:
                 info["rejected"] += 1
-                ctx.violation("gate model and real code disagree on corpus table %s: %s" % (name, what),
-                              dict(kind="table", corpus=name, case=j["case"], detail=detail), no_input=True,
-                              theorem="correspondence SmartModel gate vs cloudsync/smartsync.py")
+                is_law = what.startswith("law ")
+                ctx.violation(("the real code violates the %s [corpus table %s]" % (what.replace(" fails on the real code", ""), name)) if is_law else
+                              ("gate model and real code disagree on corpus table %s: %s" % (name, what)),
+                              dict(kind="table", corpus=name, case=j["case"], detail=detail), no_input=not is_law,
+                              theorem=None if is_law else "correspondence SmartModel gate vs cloudsync/smartsync.py")
             continue
         case = EC.unjson_case(j["case"])
         res = F.run_smart_case(case, model)
@@ -292,12 +294,12 @@ def run(ctx):
         fails.sort(key=lambda f: 0 if f[1].startswith("law ") else 1)     # a failing input of a law first
         for case, what, detail in fails[:3]:
             is_law = what.startswith("law ")
-            ctx.violation(("the real gate violates the %s" % what.replace(" fails on the real gate", "")) if is_law else
+            ctx.violation(("the real gate violates the %s" % what.replace(" fails on the real gate", "").replace(" fails on the real code", "")) if is_law else
                           ("gate model and real code disagree: %s" % what),
                           dict(kind="table", case=case, detail=detail), no_input=not is_law,
                           theorem=None if is_law else "correspondence SmartModel gate (changeset_filter / pre_sync / g_request / "
                                                       "g_unrequest / g_listdir) vs cloudsync/smartsync.py")
-        # ---- Stream A (seeded, claimed-clean domain)
+        # ---- Stream A (seeded, claimed-clean domain; since fc0a567 / 2277c0d it includes folders and ids of path-less entries)
         for fam, nq, nt in (("smart_drained", 1500, 25000), ("smart_interleaved", 3000, 60000)):
             n = nq if ctx.quick else nt
             t0 = time.time()
@@ -363,59 +365,3 @@ def _tie_failures(ctx, fam, fails):
         ctx.violation("TreeModel.apply_op and MockProvider disagree on a user operation: " + descr,
                       dict(kind="correspondence", family=fam, case=case, trace_tail=tail), no_input=True,
                       theorem="correspondence TreeModel.apply_op vs MockProvider (guard TIE)")
-
-
-# ------------------------------------------------------------------ build-time tool
-def build_known():
-    """prints {finding: [case ids]} for the deterministic Stream B on the CURRENT code: a failing case belongs to S-2 when it
-    passes with the S-2 repair, to S-1 when it still fails then but passes with both repairs; anything else is unexplained."""
-    from .. import families_c20 as F
-    from .. import engine as E
-    E.install()
-    out = {"S-1": [], "S-2": [], "unexplained": []}
-    failing = {}
-    for fam, n in (("smart_det", F.smart_det_count()), ("smart_wild", 6000)):
-        st, fails = explore("engine", fam, n, 0)
-        for case, verdict, descr, tail in fails:
-            failing[case_key(EC.unjson_case(case))] = EC.unjson_case(case)
-    print("failing on the current code:", len(failing), file=sys.stderr)
-    from .. import c20_repairs
-    import subprocess
-    # repairs are process-global: classify in child processes
-    payload = json.dumps([EC.jsonable_case(c) for c in failing.values()])
-    res = {}
-    for which in (["S-2"], ["S-1", "S-2"]):
-        p = subprocess.run([sys.executable, "-W", "ignore", "-m", "harness.checks.c20", "classify", ",".join(which)],
-                           input=payload, capture_output=True, text=True, cwd=fw.VERIF, env=os.environ)
-        res[tuple(which)] = set(json.loads(p.stdout.strip().split("\n")[-1]))
-    for cid in failing:
-        if cid not in res[("S-2",)]:
-            out["S-2"].append(cid)
-        elif cid not in res[("S-1", "S-2")]:
-            out["S-1"].append(cid)
-        else:
-            out["unexplained"].append(cid)
-    print(json.dumps({k: sorted(v) for k, v in out.items()}, indent=1))
-
-
-def classify(which):
-    """stdin: list of cases; stdout: ids of those still failing with the repairs `which` applied"""
-    from .. import families_c20 as F
-    from .. import engine as E
-    from .. import c20_repairs
-    E.install()
-    c20_repairs.apply(which)
-    model = fw.ModelProc("smart")
-    still = []
-    for c in json.loads(sys.stdin.read()):
-        case = EC.unjson_case(c)
-        if F.run_smart_case(case, model).verdict != []:
-            still.append(case_key(case))
-    print(json.dumps(still))
-
-
-if __name__ == "__main__":
-    if sys.argv[1] == "build-known":
-        build_known()
-    elif sys.argv[1] == "classify":
-        classify(sys.argv[2].split(","))
